@@ -109,6 +109,8 @@ async def _run(script, ops):
             waiters[w] = asyncio.ensure_future(getter())
             await settle()
             flush()
+            if not waiters[w].done():
+                log.append([7, w, op[1]])
         else:
             await asyncio.sleep(max(0, op[1]))
             await settle()
